@@ -135,6 +135,52 @@ pub fn eval_c09(sc: &Scenario, h: &History, _signed: &Signeds, out: &mut Outcome
             if helper != want {
                 out.violate("C09.helper", "hash_script_data_differs_from_emitted_bytes", format!("op {}: hash_script_data(typed witness set) {} != hash of emitted bytes {}", b.op, hex::encode(&helper[..6]), hex::encode(&want[..6])));
             }
+            // a peer that received these datums: it decodes the list from a definite-length re-encoding of the
+            // same datum bytes, hashes with the stand-alone helper, hands the list to the typed setters of a new
+            // witness set and emits that - the helper's hash must be the hash of the bytes it emits
+            if let Some(items) = dats.and_then(|d| d.set_items()) {
+                let mut lb = vec![];
+                if b.op % 2 == 0 {
+                    cbor::w_tag(&mut lb, 258);
+                }
+                cbor::w_array(&mut lb, items.len() as u64);
+                for it in items {
+                    lb.extend_from_slice(v.span(it));
+                }
+                if let Ok(list) = csl::PlutusList::from_bytes(lb) {
+                    let helper2 = csl::hash_script_data(&r, &exec::costmdls(bits), Some(list.clone())).to_bytes();
+                    let mut ws2 = csl::TransactionWitnessSet::new();
+                    ws2.set_plutus_data(&list);
+                    if n_reds > 0 {
+                        ws2.set_redeemers(&r);
+                    }
+                    let b2 = ws2.to_bytes();
+                    if let Ok(n2) = cbor::parse(&b2) {
+                        let mut pre2 = vec![];
+                        match (n2.get(5), n2.get(4)) {
+                            (None, Some(d2)) => {
+                                pre2.push(0xa0);
+                                pre2.extend_from_slice(d2.span(&b2));
+                                pre2.push(0xa0);
+                            }
+                            (Some(r2), d2) => {
+                                pre2.extend_from_slice(r2.span(&b2));
+                                if let Some(d2) = d2 {
+                                    pre2.extend_from_slice(d2.span(&b2));
+                                }
+                                pre2.extend(oracle::language_views(&langs, &|l| exec::cost_model_values(l)));
+                            }
+                            _ => {}
+                        }
+                        if !pre2.is_empty() {
+                            out.count("c09.relayed_datum_lists_checked", 1);
+                            if helper2 != blake2b256(&pre2).to_vec() {
+                                out.violate("C09.helper", "hash_script_data_differs_from_what_the_typed_setters_emit", format!("op {}: hash_script_data over a decoded datum list != hash of the witness set the typed setters emit for it", b.op));
+                            }
+                        }
+                    }
+                }
+            }
             if let Some(pl) = ws.plutus_data() {
                 if let Some(items) = dats.and_then(|d| d.set_items()) {
                     for (i, it) in items.iter().enumerate() {
